@@ -181,19 +181,35 @@ def gen_system(rng, am, fam_box=None, extra=(), far=False):
 
 
 # distances (relative to the NEW cell) at which atoms are put next to its faces: inside and just beyond the range
-# 1e-7 .. 1e-4 of the tolerance ladder of rotate
-DELTAS = [Fraction(1, 10 ** 7), Fraction(3, 10 ** 6), Fraction(3, 10 ** 5), Fraction(9, 10 ** 5), Fraction(2, 10 ** 4)]
+# 1e-7 .. 1e-4 of the tolerance ladder of rotate, and inside the narrow bands (atol, atol + 1e-5] in which a rung of the
+# ladder rounds an atom below an upper face (isclose to 1.0) differently from its image below the lower face (isclose to
+# 0.0) if the two tests do not use the same absolute tolerance
+DELTAS = [Fraction(1, 10 ** 7), Fraction(3, 10 ** 6), Fraction(5, 10 ** 6), Fraction(1005, 10 ** 8), Fraction(15, 10 ** 6),
+          Fraction(3, 10 ** 5), Fraction(9, 10 ** 5), Fraction(105, 10 ** 6), Fraction(2, 10 ** 4)]
+# one atom per rung: 1.05e-4 defeats the 1e-4 rung only, 1.005e-5 the rungs 1e-5, 1e-6 and 1e-7
+LADDER = [Fraction(105, 10 ** 6), Fraction(1005, 10 ** 8)]
 
 
-def near_face_spos(rng, U):
+def near_face_spos(rng, U, delta=None, below=None):
     """exact relative coordinates, in the ORIGINAL cell, of an atom that sits a hair off (not on) a face, an edge or a
-    corner of the NEW cell U.vects - on either side of it."""
+    corner of the NEW cell U.vects - on either side of it (`below`: just below an upper face; `delta`: how far)."""
     sp = [Fraction(rng.randint(1, 7), 8) for _ in range(3)]
-    for c in rng.sample(range(3), rng.choice([1, 1, 1, 2, 3])):
-        dl = rng.choice(DELTAS)
-        sp[c] = dl if rng.random() < 0.5 else 1 - dl
+    for c in rng.sample(range(3), rng.choice([1, 1, 1, 2, 3]) if delta is None else 1):
+        dl = delta if delta is not None else rng.choice(DELTAS)
+        sp[c] = (1 - dl) if (below or (below is None and rng.random() < 0.5)) else dl
     s = [sum(sp[i] * U[i][j] for i in range(3)) for j in range(3)]
     return tuple(frac_mod1(x) for x in s)
+
+
+def near_face_atoms(rng, U):
+    """1-3 atoms a hair off faces of the new cell; one time in four the cooperating set that defeats every rung of the
+    tolerance ladder at once (each just below an upper face, one per band) plus possibly a further one."""
+    if rng.random() < 0.25:
+        out = [near_face_spos(rng, U, delta=dl, below=True) for dl in LADDER]
+        if rng.random() < 0.5:
+            out.append(near_face_spos(rng, U))
+        return out
+    return [near_face_spos(rng, U) for _ in range(rng.choice([1, 1, 2, 3]))]
 
 
 NEXTRA = 14
@@ -305,7 +321,7 @@ def gen_case_U(rng, am, it, maxdet):
     case has an atom (two sometimes) a hair off a face / edge / corner of the new cell."""
     if it < len(FIXED_U):
         U = [list(r) for r in FIXED_U[it]]
-        extra = [near_face_spos(rng, U)] if it % 2 == 0 else []
+        extra = near_face_atoms(rng, U) if it % 2 == 0 else []
         while True:
             sysm, fam, spos = gen_system(rng, am, extra=extra)
             o = sysm.box.origin @ _np().linalg.inv(sysm.box.vects)
@@ -313,7 +329,7 @@ def gen_case_U(rng, am, it, maxdet):
                 break
         return sysm, fam, spos, U, _det3(U)
     U, d = gen_U(rng, maxdet=maxdet)
-    extra = [near_face_spos(rng, U) for _ in range(rng.choice([1, 1, 2]))] if it % 3 == 0 else []
+    extra = near_face_atoms(rng, U) if it % 3 == 0 else []
     sysm, fam, spos = gen_system(rng, am, extra=extra, far=(it % 4 == 1))
     return sysm, fam, spos, U, d
 
@@ -482,7 +498,7 @@ def gen_hex_case(rng, am):
             arg = miller.vector3to4(np.array(U, dtype=float))
             arg[rng.randrange(3), rng.randrange(3)] += rng.choice([-1, 1]) * rng.choice([1e-6, 0.01, 1.0])
             form = 'hex4-sum-not-zero'
-        extra = [near_face_spos(rng, U)] if rng.random() < 0.3 else []
+        extra = near_face_atoms(rng, U) if rng.random() < 0.3 else []
         sysm, fam, spos = gen_system(rng, am, (box, 'hexagonal'), extra=extra)
         return sysm, fam, spos, U, d, arg, form
 
